@@ -84,27 +84,61 @@ impl C09 {
     fn judge(&self, w: &World, f: &FObs, pos: &Position, now: u64, out: &Outcome, how: &str, rep: &mut Reporter) -> Option<u128> {
         let amount = pos.lp_asset.amount.u128();
         let mut p = paid(out, w, pos);
-        // the position's owner may itself own an active farm on this LP token and then receives
-        // a share of its own penalty in a separate transfer: book it as a farm owner's share
-        {
-            let to_owner: Vec<u128> = out
-                .log()
-                .iter()
-                .filter(|e| e.kind == BankKind::Send && e.from == w.fm.as_str() && e.to == pos.receiver.as_str())
-                .flat_map(|e| e.coins.iter())
-                .filter(|c| c.denom == pos.lp_asset.denom)
-                .map(|c| c.amount.u128())
-                .collect();
-            if to_owner.len() == 2 {
-                // the contract pays the penalty shares first and the owner's remainder last
-                let share = to_owner[0];
-                p.owner -= share;
-                p.others.insert(pos.receiver.to_string(), share);
+        // who may receive a share: owners of farms on this LP token that have started and are not expired
+        let cur = f.epoch.unwrap_or(0);
+        let active: BTreeSet<String> = f
+            .farms
+            .values()
+            .filter(|fa| fa.lp_denom == pos.lp_asset.denom && fa.start_epoch <= cur && !expired(w, fa, &f.cfg, now))
+            .map(|fa| fa.owner.to_string())
+            .collect();
+        // the position's owner may itself own an active farm on this LP token and then receives a
+        // share of its own penalty - in a transfer of its own or merged with its payout. Only
+        // what each party ends up with is observed, so the penalty is recovered from the fee
+        // collector's part (ceil(P/2) when shares are paid, P when they round to zero) and must
+        // reproduce the owner's total
+        let mut owner_inconsistent = false;
+        if active.contains(pos.receiver.as_str()) && pos.receiver.as_str() != w.fc.as_str() {
+            let n = active.len() as u128;
+            let total_to_owner = p.owner;
+            let fc = p.fee_collector;
+            let split = |pen: u128| -> (u128, u128) {
+                let half = pen / 2;
+                let share = half / n;
+                if share > 0 {
+                    (share, pen - half)
+                } else {
+                    (0, pen)
+                }
+            };
+            let mut found = None;
+            for cand in [fc, (2 * fc).saturating_sub(1), 2 * fc, 0] {
+                if cand > amount {
+                    continue;
+                }
+                let (share, fc_part) = split(cand);
+                let others_agree = active.iter().filter(|a| a.as_str() != pos.receiver.as_str() && a.as_str() != w.fc.as_str()).all(|a| p.others.get(a).copied().unwrap_or(0) == share);
+                if fc_part == fc && amount - cand + share == total_to_owner && others_agree {
+                    found = Some((cand, share));
+                    break;
+                }
+            }
+            match found {
+                Some((pen, share)) => {
+                    p.owner = amount - pen;
+                    if share > 0 {
+                        p.others.insert(pos.receiver.to_string(), share);
+                    }
+                }
+                None => owner_inconsistent = true,
             }
         }
         let others_sum: u128 = p.others.values().sum();
         let penalty = amount.checked_sub(p.owner)?;
         let mut errs = vec![];
+        if owner_inconsistent {
+            errs.push(format!("the owner (who also owns an active farm on this LP token) received {} in total, which no penalty split between it, the other farm owners and the fee collector ({}) explains", p.owner, p.fee_collector));
+        }
         if p.owner + p.fee_collector + others_sum > amount {
             errs.push(format!("owner {} + penalty payouts {} exceed the recorded amount {amount}", p.owner, p.fee_collector + others_sum));
         }
@@ -129,14 +163,6 @@ impl C09 {
                 errs.push(format!("penalty {penalty} differs from amount x min(0.9, base x remaining/duration x multiplier) = {} by {dev}", exact.floor()));
             }
         }
-        // who may receive a share: owners of farms on this LP token that have started and are not expired
-        let cur = f.epoch.unwrap_or(0);
-        let active: BTreeSet<String> = f
-            .farms
-            .values()
-            .filter(|fa| fa.lp_denom == pos.lp_asset.denom && fa.start_epoch <= cur && !expired(w, fa, &f.cfg, now))
-            .map(|fa| fa.owner.to_string())
-            .collect();
         for (to, amt) in &p.others {
             if to.contains(':') {
                 errs.push(format!("other tokens moved: {to} {amt}"));
